@@ -214,6 +214,7 @@ var hostileFragments = []string{
 	// letters, letter-like numbers; alone and next to the characters that start or continue a number/name/size
 	"\u0663", "\u0969", "\uff13", "\U0001d7d9", "\u00b2", "\u2167", ".\u0663", "e.\u0663", "E.\uff13", "x.\u0969", "1\u0663", "\u06631", "-\u0663", "0x\u0663", "1e\u0663", "[\u0663]", "[1..\u0663]",
 	"S\u0663F1", "S1F\u0663", "x[\u0663]", "...[\u0663]", "\u0663.", ".\u0663.", "\u0131", "\u212a", "\u017f", "\u0130", "\uff37", "\uff33\uff11\uff26\uff11",
+	"//a\n//b\n//c\n", "//\n//\n//\n//\n", " //1\n //2\n //3\n //4\n //5\n", "//x\r\n//y\r\n//z", "[1.", "[.", "[ .", "[1 .", "[..", "[1..2", "[.]", "[1.]", "[1.2]", ".", "1.", "x.", "\"a\".",
 	"\"\"", "\"a\"", "\"é\"", "\"\\\"", "\"a\nb\"", "\"\n", "0x7F", "0x80", "127", "128", "255", "256", "-1", "1.5", ".5", "5.", "1_000", "0b2", "08", "0o8", "0xG",
 }
 
